@@ -178,6 +178,23 @@ CHECKS = {
         "technique": "property-based testing over generated schedules (deterministic scheduler, PCT/walk) with history invariants and deadlock detection",
         "design_ref": "DESIGN.md section 3, harness simcam, C18",
     },
+    "C12": {
+        "level": "exploration",
+        "text": "The real device manager and loader run against driver libraries laid out per case next to a private copy of the harness "
+                "executable: for each of the six driver names the library is absent, not an ELF file, lacks the entry point, returns NULL from "
+                "init, is the real acquire-driver-common built from the working tree, or is a trampoline into a scripted mock driver with "
+                "case-chosen devices (names with regex metacharacters, case variants, duplicates, 255-byte names, odd kinds, describe failures). "
+                "Oracles: count/get equal the concatenation of the drivers' descriptions with driver_id = slot; for grammar-built patterns "
+                "(literals, '.', sets, alternation, ?, *, + derived from an enumerated name by match-preserving or match-breaking steps) "
+                "select must return exactly the first enumerated device of the kind that an independent whole-name, ASCII case-insensitive "
+                "matcher accepts, also with NUL padding; raw byte patterns with any kind value must give Ok (an enumerated device of that kind) "
+                "or Err, never a crash or escaping exception; every enumerated camera/storage identifier opens to a device of that kind and name.",
+        "note": "Trusts the harness' backtracking matcher (harness/devsel/devsel.cpp) for the pattern subset it generates; names contain no NUL or "
+                "line terminators; catastrophic backtracking in std::regex would show as a time-out, which is never a verdict. The mock driver "
+                "writes nothing when describe fails.",
+        "technique": "property-based testing (rapidcheck, libFuzzer) with an independent matcher and an enumeration model; differential on select",
+        "design_ref": "DESIGN.md section 3, harness devsel",
+    },
     "C11": {
         "level": "exploration",
         "text": "Generated HAL call sequences on up to 3 cameras and 3 storages run against an in-process mock driver whose every response "
